@@ -14,7 +14,8 @@ LEVEL = "exploration"
 EXAMPLES = {"quick": 800, "thorough": 16000}
 RULE = ("Generated: portfolio (contracts, takes, transports, multi-commodity, storages, order books, Plant/CHP with "
         "fuel node, scaled and structured assets, market pairs) is optimised; then rebuilt with fix_time_window given as "
-        "boolean mask, index list or date (between two grid points) and either the same or new prices. Oracle: on the "
+        "boolean mask, index list or date (between two grid points) and either the same or new prices; in half of "
+        "the cases everything goes through the split set-up (interval 6h/12h/d). Oracle: on the "
         "rebuilt problem l = u = previous x exactly for every variable one of whose mapping steps lies in the window, "
         "l and u equal to the unfixed problem for all others, everything else (c, A, b, cType) equal to the unfixed "
         "problem with the new prices; the re-optimised x equals the previous x on the pinned set; with unchanged "
@@ -47,6 +48,7 @@ def _strategy(draw):
         idx = sorted(set(draw(st.lists(st.integers(0, T - 1), min_size=0, max_size=T))))
         spec["fix"] = {"form": "index", "idx": idx}
     spec["new_prices"] = draw(st.booleans())
+    spec["split"] = draw(st.sampled_from([None, None, None, "6h", "12h", "d"]))
     if spec["new_prices"]:
         spec["prices2"] = {k: (draw(gen.price_series(T)) if k.startswith("p") and not k.startswith("pm") else v)
                            for k, v in spec["prices"].items()}
@@ -63,8 +65,10 @@ def check(spec):
     T = g["T"]
     fx = spec["fix"]
     out.label("form:" + fx["form"], "new_prices" if spec["new_prices"] else "same_prices")
-    base = {k: v for k, v in spec.items() if k not in ("fix", "new_prices", "prices2")}
-    r0 = obs.Run(base)
+    base = {k: v for k, v in spec.items() if k not in ("fix", "new_prices", "prices2", "split")}
+    split = spec.get("split")
+    out.label("build:split" if split else "build:monolithic")
+    r0 = obs.Run(base, split=split)
     if is_err(r0.op):
         return out.drop("setup_error:" + r0.op.kind)
     res0 = r0.optimize()
@@ -91,13 +95,33 @@ def check(spec):
     if spec["new_prices"]:
         s2["prices"] = spec["prices2"]
     # unfixed problem with the (new) prices, fresh objects
-    ru = obs.Run(s2)
+    ru = obs.Run(s2, split=split)
     if is_err(ru.op):
         return out.drop("setup_error_new_prices")
-    rf = obs.Run(s2, fix_time_window={"I": I, "x": x0.copy()})
+    fixarg = {"I": I if not isinstance(I, list) else list(I), "x": x0.copy()}
+    rf = obs.Run(s2, split=split, fix_time_window=fixarg)
     if is_err(rf.op):
-        return out.fail("set-up with fix_time_window (%s) raised %s" % (fx["form"], rf.op.short()))
+        return out.fail("%sset-up with fix_time_window (%s) raised %s" % ("split " if split else "", fx["form"], rf.op.short()))
     opf, opu = rf.op, ru.op
+    if split:
+        # view the split problem as one problem: variables of all intervals stacked, mapping with original steps
+        class _Cat:
+            pass
+
+        def cat(sp_):
+            o = _Cat()
+            o.l = np.hstack([np.asarray(p.l, float) for p in sp_.ops])
+            o.u = np.hstack([np.asarray(p.u, float) for p in sp_.ops])
+            o.c = np.hstack([np.asarray(p.c, float) for p in sp_.ops])
+            o.b = np.hstack([np.asarray(p.b, float) for p in sp_.ops])
+            o.cType = "".join(p.cType for p in sp_.ops)
+            o.A = None
+            o.mapping = sp_.mapping
+            return o
+        if len(opf.ops) != len(opu.ops):
+            return out.fail("number of intervals changes with fix_time_window")
+        opf_s, opu_s = opf, opu
+        opf, opu = cat(opf), cat(opu)
     n = len(opu.c)
     if len(opf.c) != n or len(x0) != n:
         return out.fail("problem size changes with fix_time_window: %d vs %d" % (len(opf.c), n))
@@ -120,7 +144,7 @@ def check(spec):
         out.fail("variable %d (steps %s, outside the window) has bounds [%g,%g] instead of [%g,%g]"
                  % (j, sorted(steps_of.get(j, [])), lf[j], uf[j], lu[j], uu[j]))
     if not core.close_struct(opf.c, opu.c) or opf.cType != opu.cType or not core.close_struct(opf.b, opu.b) or \
-            abs(opf.A - opu.A).sum() > 1e-12:
+            (opf.A is not None and abs(opf.A - opu.A).sum() > 1e-12):
         out.fail("fix_time_window changes costs or restrictions of the problem")
     if out.violations:
         return out
@@ -132,7 +156,7 @@ def check(spec):
             out.fail("with unchanged prices the fixed problem is reported '%s'" % resf)
         return out if out.violations else out.drop("fixed_problem_no_solution")
     xf = np.asarray(resf.x, float)
-    scale = lpkit.from_op(opu).scale()
+    scale = max(lpkit.from_op(p_).scale() for p_ in opu_s.ops) if split else lpkit.from_op(opu).scale()
     tol = 10 * core.tol_feas(scale) * (10 if mip else 1)
     d = np.abs(xf - x0)[pinned]
     if len(d) and d.max() > tol:
